@@ -138,10 +138,10 @@ type Runner struct {
 	// violation is already recorded) so that larger lengths cannot exhaust the machine
 	tripped map[string]bool
 	cut     bool
-	unstab int64
-	msA    runtime.MemStats
-	msB    runtime.MemStats
-	sample map[string]bool
+	unstab  int64
+	msA     runtime.MemStats
+	msB     runtime.MemStats
+	sample  map[string]bool
 }
 
 const batchSize = 48
@@ -466,7 +466,6 @@ func blowPatterns() []blowPattern {
 		{"uvarint-2^64-1", uvar(1<<64 - 1), 1},
 	}
 }
-
 
 func (k *Runner) expand(c *Codec, seeds []seedRec) {
 	pats := blowPatterns()
